@@ -152,6 +152,9 @@ class Ledger(object):
             pass
         elif kind == "clear":
             self.reset(op[1], {B(a): n for a, n in op[2]})
+        elif kind == "recreate":
+            if out.status == "ok":
+                self.reset(self.default_rule, dict(self.rules))
         if out.status == "ok" and out.created:
             self.follow_created(out.created)
         return facts
@@ -161,7 +164,7 @@ class Ledger(object):
         kind = op[0]
         if kind == "unrule":
             return B(op[1]) in self.rules
-        if kind == "reopen":
+        if kind in ("reopen", "recreate"):
             return backend == "file"
         if kind in ("addprefix",):
             return op[2] in self.issued
